@@ -8,6 +8,7 @@
 #include "xtensor/xio.hpp"
 #include "fastscapelib/grid/raster_grid.hpp"
 #include "fastscapelib/grid/profile_grid.hpp"
+#include "fastscapelib/grid/trimesh.hpp"
 #include "fastscapelib/flow/flow_graph.hpp"
 #include "fastscapelib/flow/flow_router.hpp"
 #include "fastscapelib/flow/sink_resolver.hpp"
@@ -113,9 +114,11 @@ int main(int argc,char**argv){
     if(L!=fs::node_status::fixed_value&&R!=fs::node_status::fixed_value&&T!=fs::node_status::fixed_value&&B!=fs::node_status::fixed_value) T=fs::node_status::fixed_value, B=(B==fs::node_status::looped?fs::node_status::core:B);
     double dy= irand(0,1)?1.0:3.7, dx=irand(0,1)?1.0:1.3;
     try{
-    switch(irand(0,2)){
+    switch(irand(0,4)){
       case 0: { fs::raster_grid<fs::xt_selector,fs::raster_connect::rook> g({size_t(rows),size_t(cols)},{dy,dx},{{L,R,T,B}}); fails+=one(g,fam,s);} break;
       case 1: { fs::raster_grid<fs::xt_selector,fs::raster_connect::queen> g({size_t(rows),size_t(cols)},{dy,dx},{{L,R,T,B}}); fails+=one(g,fam,s);} break;
+      case 3: { fs::node_status pl=pick(), pr=pick(); if(irand(0,3)==0){pl=pr=fs::node_status::looped;} if(pl!=fs::node_status::fixed_value&&pr!=fs::node_status::fixed_value&&pl!=fs::node_status::looped) pl=fs::node_status::fixed_value; fs::profile_grid<> g(size_t(irand(2,30)), dx, {pl,pr}); fails+=one(g,fam,s);} break;
+      case 4: { int nr=irand(2,6), nc=irand(2,6); size_t n=size_t(nr*nc); xt::xtensor<double,2> pts({n,2}); for(int r=0;r<nr;r++)for(int c=0;c<nc;c++){ pts(r*nc+c,0)=c*dx+0.2*(std::uniform_real_distribution<double>(0,1)(rng)-0.5); pts(r*nc+c,1)=r*dy+0.2*(std::uniform_real_distribution<double>(0,1)(rng)-0.5);} std::vector<std::array<size_t,3>> T; for(int r=0;r+1<nr;r++)for(int c=0;c+1<nc;c++){ size_t a=size_t(r*nc+c),b=a+1,d=a+size_t(nc),e=d+1; if(irand(0,1)){T.push_back({a,b,d});T.push_back({b,e,d});}else{T.push_back({a,b,e});T.push_back({a,e,d});} } xt::xtensor<size_t,2> tri({T.size(),3}); for(size_t t=0;t<T.size();t++)for(size_t k=0;k<3;k++)tri(t,k)=T[t][k]; fs::trimesh g(pts,tri); fails+=one(g,fam,s);} break;
       default:{ fs::raster_grid<fs::xt_selector,fs::raster_connect::bishop> g({size_t(rows),size_t(cols)},{dy,dx},{{L,R,T,B}}); fails+=one(g,fam,s);} }
     } catch(std::exception& ex){ std::cout<<"EXC seed="<<s<<" "<<ex.what()<<"\n"; fails++; }
   }
